@@ -40,6 +40,7 @@ func TestProp(t *testing.T) {
 			pbt.NewPart("sql", 3, genSQL, runSQL),
 			pbt.NewPart("s3", 5, genS3, runS3),
 			pbt.NewPart("shadow", 2, genShadow, runShadow),
+			pbt.NewPart("hdfs", 3, genHDFS, runHDFS),
 		},
 	})
 }
